@@ -88,6 +88,7 @@ SetFails(e) ==
          THEN {"C11"} ELSE {})
    \cup (IF \/ Get(c, e.raw, f) # vbits
             \/ ReservedOf(c, e.raw) # ReservedOf(c, st.raw)
+            \/ (LET ha == HdrBits(c, e.raw)  hb == HdrBits(c, st.raw) IN \E b \in ViewReserved(c, f) : ha[b] # hb[b])
             \/ ~GettersMatch(c, e.raw, e.get)
          THEN {"C12"} ELSE {})
    \cup (IF e.raw # exp THEN {"NC"} ELSE {})
